@@ -272,6 +272,31 @@ static size_t fill_vals(int kind) {
         VALS[7] = 70000;
         VALS[200] = 70000 + 65535;
         break;
+    case 13: { /* 21 scattered 9-byte values, 8-byte spread, one outlier: PFOR is selected and its size is within one byte of the adaptive bound */
+        n = 21;
+        uint64_t mn = 1ULL << 62, S = 1ULL << 56;
+        for (size_t j = 0; j < n; j++) {
+            VALS[(j * 5 + 3) % n] = j == 0 ? mn : mn + S + j;
+        }
+        VALS[((n - 1) * 5 + 3) % n] += S;
+        break;
+    }
+    case 14: /* exceptions above the percentile AND in-range values equal to min + 0xFF (the 1-byte marker) */
+        for (n = 0; n < 40; n++) {
+            VALS[n] = n % 4 == 0 ? 255 : (n * 7) % 200;
+        }
+        VALS[9] = 100000;
+        VALS[30] = 7000000;
+        VALS[1] = 0;
+        break;
+    case 15: /* the same with the 2-byte marker */
+        for (n = 0; n < 60; n++) {
+            VALS[n] = n % 5 == 0 ? 1000 + 65535 : 1000 + (n * 977) % 60000;
+        }
+        VALS[7] = 1000;
+        VALS[11] = 1ULL << 40;
+        VALS[44] = 1ULL << 33;
+        break;
     case 12: /* 300 distinct values: 2-byte dictionary indices */
         for (n = 0; n < 600; n++) {
             VALS[n] = (n % 300) * 1000003ULL + 17;
@@ -280,7 +305,7 @@ static size_t fill_vals(int kind) {
     }
     return n;
 }
-static const char *VALN[] = {"60 values over 5 distinct", "200 values over 40 distinct", "100 clustered values", "100 clustered values with 4 outliers", "300 strictly increasing small values", "300 sorted large values", "10500 pseudo-scattered values", "50 unsorted wide values", "5000 strictly increasing values", "ascending 0..49 with one duplicate", "200 values with range exactly 0xFF", "300 values with range exactly 0xFFFF", "600 values over 300 distinct"};
+static const char *VALN[] = {"60 values over 5 distinct", "200 values over 40 distinct", "100 clustered values", "100 clustered values with 4 outliers", "300 strictly increasing small values", "300 sorted large values", "10500 pseudo-scattered values", "50 unsorted wide values", "5000 strictly increasing values", "ascending 0..49 with one duplicate", "200 values with range exactly 0xFF", "300 values with range exactly 0xFFFF", "600 values over 300 distinct", "21 scattered 9-byte values with an 8-byte spread and one outlier", "40 values: exceptions plus in-range values equal to min+0xFF", "60 values: exceptions plus in-range values equal to min+0xFFFF"};
 
 static int same_u64(const uint64_t *a, const uint64_t *b, size_t n) { return memcmp(a, b, n * 8) == 0; }
 
@@ -532,10 +557,17 @@ static void scn_adaptive(int which, int vk) {
         if (u > n || u == 0 || st.count != n || st.uniqueCount > n) {
             FFAIL("wrong_success", "CountUnique returned %zu (fault-free %zu) for %zu values; Analyze count=%zu unique=%zu", u, truth, n, st.count, st.uniqueCount);
         }
-    } else if (which == 1) { /* Encode auto */
+    } else if (which == 1) { /* Encode auto: the destination holds exactly varintAdaptiveMaxSize(n) bytes before a guard page */
+        size_t mx = varintAdaptiveMaxSize(n);
+        uint8_t *dst = vh_gb_get(0, mx, 0xEE);
         FAULT_BEGIN();
-        size_t w = varintAdaptiveEncode(ENC, VALS, n, NULL);
+        size_t w = varintAdaptiveEncode(dst, VALS, n, NULL);
         FAULT_END();
+        if (w > mx) {
+            FFAIL("write_past_bound", "varintAdaptiveEncode returned %zu bytes, varintAdaptiveMaxSize(%zu) = %zu", w, n, mx);
+            w = 0;
+        }
+        memcpy(ENC, dst, w);
         verify_adaptive(w, n, "varintAdaptiveEncode");
     } else if (which >= 10 && which <= 15) { /* EncodeWith(type) */
         int type = which - 10;
@@ -768,6 +800,16 @@ static void build_scenarios(void) {
     }
     add_sc("PFOR.Encode", 1, 1, 10, 0);
     add_sc("PFOR.Encode", 1, 1, 11, 0);
+    add_sc("PFOR.Encode", 1, 1, 14, 0);
+    add_sc("PFOR.Encode", 1, 1, 15, 0);
+    add_sc("PFOR.ComputeThreshold", 1, 0, 14, 0);
+    add_sc("adaptive.Encode", 3, 1, 13, 0);
+    add_sc("adaptive.Encode", 3, 1, 14, 0);
+    add_sc("adaptive.Encode", 3, 1, 15, 0);
+    add_sc("adaptive.EncodeWith[2]", 3, 12, 13, 0);
+    add_sc("adaptive.EncodeWith[2]", 3, 12, 14, 0);
+    add_sc("adaptive.EncodeWith[2]", 3, 12, 15, 0);
+    add_sc("adaptive.Decode[2]", 3, 22, 14, 0);
     add_sc("PFOR.ComputeThreshold", 1, 0, 10, 0);
     add_sc("adaptive.EncodeWith[2]", 3, 12, 10, 0);
     add_sc("adaptive.EncodeWith[2]", 3, 12, 11, 0);
@@ -875,7 +917,8 @@ static long execute(const scenario *s, size_t k1, size_t k2) {
     } else {
         vm_set_fail(0, 0);
         scn_name = s->name;
-        vh_fail(s->name, vh_fault_kind == 4 ? "hang" : "crash", "untagged", "%s [fail allocation #%zu%s of the call]: %s %s", scn_desc, k1, k2 ? " and a later one" : "", vh_fault_name(), vh_fault_msg);
+        vh_fail(s->name, vh_fault_kind == 4 ? "hang" : (vh_fault_kind == 1 && vh_fault_slot == 0) ? "write_past_bound" : "crash", "untagged", "%s [fail allocation #%zu%s of the call]: %s %s%s", scn_desc, k1, k2 ? " and a later one" : "",
+                vh_fault_name(), vh_fault_msg, (vh_fault_kind == 1 && vh_fault_slot == 0) ? " (a destination of exactly the advertised maximum size was overrun)" : "");
     }
     it.it_value.tv_sec = 0;
     setitimer(ITIMER_REAL, &it, NULL);
@@ -905,6 +948,7 @@ static long execute(const scenario *s, size_t k1, size_t k2) {
 int main(int argc, char **argv) {
     vh_init(argc, argv);
     vh_sandbox_init();
+    vh_gb_init(0, 1 << 20);
     vm_init((size_t)1 << 30);
     build_scenarios();
     vh_infostr("scenarios", "%d", NSC);
